@@ -350,7 +350,8 @@ def build_trees(
                 trees[i] = AngularTree(coords, weights=weights, leafsize=leafsize)
 
         # fill in dummy trees for bins that contain no data
-        empty_tree = AngularTree.empty(has_weights=weights is not None)
+        has_weights = DataChunk.hasattr(chunk, "weights")
+        empty_tree = AngularTree.empty(has_weights=has_weights)
         trees = tuple(trees.get(i + 1, empty_tree) for i in range(len(binning)))
 
     return trees
